@@ -2,6 +2,9 @@
    The part that is logic in the tool itself: the path printed for a member of an unpacked package. *)
 From Coq Require Import List Arith Bool.
 From I18n Require Import Model.Cli Proofs.Cli.
+From Coq Require Import NArith.
+From I18n Require Import Lib.Outcome Model.MoParser Spec.MoFormat Proofs.Packaging.
+From I18n Require Import Model.PoUnescape Model.PoParser Spec.PoSyntax Proofs.PoParser.
 Import ListNotations.
 
 (* with fake_root = (real_root, fake_root): a path under real_root is printed as fake_root ++ the rest,
@@ -13,6 +16,25 @@ Theorem C17_fake_path : forall (A : Type) (eqb : A -> A -> bool),
     ((forall r, path <> real ++ r) -> fake_path eqb real fake path = path).
 Proof. exact fake_path_spec. Qed.
 Print Assumptions C17_fake_path.
+
+(* two MO files encoding the same catalog — either byte order, any placement/overlap/padding of tables and strings, with or
+   without hash table, same hidden-strings flag — load to the same entries, charset and flag; every diagnostic is computed from
+   that result (and the path, options and date), so it is the same *)
+Theorem C17_mo_layout : forall asc enc0 f1 f2 c h,
+  wf_catalog c -> Encodes f1 c h -> Encodes f2 c h -> mo_parse asc enc0 f1 = mo_parse asc enc0 f2.
+Proof. exact mo_layout_independent. Qed.
+Print Assumptions C17_mo_layout.
+
+(* two PO spellings of the same catalog — different escape forms per character, different chunking into continuation lines,
+   blank lines, #~| lines — drive the PO state machine to the same catalog (token level; the line lexer part is C10's) *)
+Theorem C17_po_spelling : forall O ws1 ws2 c1 c2 l1 l2,
+  ascii_compatible (o_dec O) -> ~ In 34%N ws1 -> ~ In 34%N ws2 ->
+  scatalog_ok (o_dec O) c1 -> scatalog_ok (o_dec O) c2 -> nplurals_le_10 c1 -> nplurals_le_10 c2 ->
+  catalog_value c1 = catalog_value c2 ->
+  ext (toks_catalog ws1 c1) l1 -> ext (toks_catalog ws2 c2) l2 ->
+  run_machine O l1 = run_machine O l2.
+Proof. exact po_spelling_independent. Qed.
+Print Assumptions C17_po_spelling.
 
 Example C17_ex : fake_path Nat.eqb [1;2;47] [9;47] [1;2;47;5;6] = [9;47;5;6].
 Proof. reflexivity. Qed.
